@@ -161,6 +161,11 @@ def attr_store_summary(P, cls, name):
                     for t in n.targets:
                         if is_target(t):
                             handled.add(id(t))
+                            v_ = n.value
+                            if isinstance(v_, ast.BinOp) and isinstance(v_.op, (ast.Add, ast.Sub)) and \
+                                    (is_target(v_.left) or (isinstance(v_.op, ast.Add) and is_target(v_.right))):
+                                kinds.add('+=')      # self.x = self.x + e: the spelled-out form of self.x += e
+                                continue
                             vs = _leaf_consts(P, n.value, f.module, c)
                             if vs is None:
                                 exact = False
